@@ -834,8 +834,71 @@ func runReopenHistory(c *Ctx, p *rprofile) (*xh, error) {
 	return x, nil
 }
 
+// scenarioL0Order: an L0->L0 compaction that leaves the newest table out puts its output (a
+// higher file id, older data) wherever the smallest key sorts it (levelHandler.replaceTables);
+// Open then orders level 0 by file id (levelHandler.initTables).  Deterministic, so that every
+// run exercises the re-ordering at Open.
+func scenarioL0Order(c *Ctx) (*xh, error) {
+	h, err := newHist(c, sysOpts{Detect: true, NKeep: 1, MaxLevels: 4, VThreshold: 32, TableSize: 1 << 20, BaseLevelSize: 8 << 10})
+	if err != nil {
+		return nil, err
+	}
+	x := &xh{hist: h, keys: [][]byte{[]byte("m"), []byte("n"), []byte("o"), []byte("p"), []byte("z")}}
+	defer h.close()
+	for i, k := range x.keys[:4] {
+		h.commit1(i, k, []byte{byte('0' + i)})
+		if err := h.flush(); err != nil {
+			return x, err
+		}
+	}
+	// the newest table (smallest key "n") is too young for the picker: it stays, and the output
+	// of the compaction (smallest key "m", higher file id) is sorted in front of it
+	h.commit1(4, []byte("z"), []byte("new"), []byte("n"), []byte("newer"))
+	if err := h.flush(); err != nil {
+		return x, err
+	}
+	ids := h.l0IDs()
+	newest := ids[len(ids)-1]
+	h.backdate = func(id uint64) bool { return id != newest }
+	ok, err := h.compact(0, true, nil)
+	if err != nil || !ok {
+		return x, fmt.Errorf("scenario l0-order: L0->L0 compaction did not run (%v)", err)
+	}
+	h.dump()
+	after := h.l0IDs()
+	c.Extra["scenario_l0_order_in_session"] = fmt.Sprint(after)
+	x.checkStructure("after-compaction")
+	if err := x.reopen(false, 0); err != nil {
+		return x, err
+	}
+	c.Extra["scenario_l0_order_after_open"] = fmt.Sprint(h.l0IDs())
+	x.someGetAts(6)
+	h.begin(10, false, 0)
+	for _, k := range x.keys {
+		h.get(10, k)
+	}
+	h.iterate(10, itOpts{All: true}, nil)
+	h.discard(10)
+	if err := x.reopen(true, 1); err != nil {
+		return x, err
+	}
+	x.someGetAts(4)
+	if err := x.closeDB(); err != nil {
+		return x, err
+	}
+	return x, nil
+}
+
 func runReopenProfile(c *Ctx, mk func(i int) *rprofile) error {
 	c.Setup("Keys Spec Lsm Compact Iter Sys SysReopen CorrReopen", "run_case")
+	if sx, err := scenarioL0Order(c); err != nil {
+		if sx != nil {
+			c.Oracle(false, "harness-error:scenario-l0-order", err.Error(), J{"history": sx.desc})
+		}
+		return err
+	} else {
+		c.Case("scenario-l0-order", sx.term(), histInput(sx.hist))
+	}
 	t0 := time.Now()
 	defer func() {
 		xTime["total"] = time.Since(t0)
@@ -883,7 +946,7 @@ func init() {
 			p := &rprofile{profile: profile{name: "next-ts", wBegin: 5, wModify: 12, wGet: 3, wIter: 1, wCommit: 10, wDiscard: 1, wFlush: 4, wCompact: 4, wL0L0: 1, wBatch: 2, wMaxVersion: 2,
 				nOps: 40 + c.Rng.Intn(40), keys: keySetA[:2+c.Rng.Intn(5)], allVersions: true, expiry: true, discardBit: true,
 				nkeeps: []int{1, 2}, detect: i%2 == 0},
-				wReopen: 4, wReopenRO: 1, wDropAll: 2, wGetAt: 1, maxReopen: 3}
+				wReopen: 4, wReopenRO: 1, wDropAll: 2, wGetAt: 1, maxReopen: 2}
 			if i%6 == 5 {
 				p.managed, p.monotone = true, true // correspondence of Open's nextTxnTs only: the commit timestamp is the caller's
 			}
@@ -896,9 +959,9 @@ func init() {
 			p := &rprofile{profile: profile{name: "structure", wBegin: 4, wModify: 16, wGet: 2, wIter: 1, wCommit: 8, wDiscard: 1, wFlush: 8, wCompact: 10, wL0L0: 2, wDump: 1, wBatch: 4,
 				nOps: 70 + c.Rng.Intn(60), keys: keySetA[:4+c.Rng.Intn(8)], allVersions: true, expiry: true, discardBit: true,
 				nkeeps: []int{1, 2, 3, 100}, detect: false, bigValues: i%3 == 0},
-				wReopen: 2, wReopenRO: 1, wDropAll: 1, checkEvery: true, maxReopen: 2}
+				wReopen: 2, wReopenRO: 1, wDropAll: 1, checkEvery: true, maxReopen: 1 + i%2}
 			if i%4 == 1 {
-				p.wFlush, p.wL0L0, p.wCompact = 16, 6, 4
+				p.wFlush, p.wL0L0, p.wCompact, p.wModify, p.wCommit = 20, 8, 1, 20, 12
 			}
 			if i%5 == 4 {
 				p.managed, p.monotone, p.wSetDiscard = true, true, 3
